@@ -6,6 +6,7 @@
 package probe
 
 import (
+	"strings"
 	"bufio"
 	"context"
 	"encoding/json"
@@ -313,6 +314,60 @@ func (r *runner) exec(op Op, res *Res) {
 			s.Tag(t.Name, t.Prio)
 		}
 		r.c.OverrideService(op.Name, s)
+		res.OK = true
+	case "independent":
+		// two more containers from the same constructor function: whatever one of them hands out must not be handed out by
+		// the other (op.Ops lists what to fetch); identities as in the stress run (serial, or retained address of pointer literals)
+		ctor, ok := registry[r.name]
+		if !ok {
+			res.Err = "not registered"
+			return
+		}
+		a, okA := ctor().(Ctr)
+		b, okB := ctor().(Ctr)
+		if !okA || !okB {
+			res.Err = "constructor result does not implement the container interface"
+			return
+		}
+		fetch := func(c Ctr, o Op) interface{} {
+			var v interface{}
+			func() {
+				defer func() { _ = recover() }()
+				switch o.Op {
+				case "get":
+					v, _ = c.Get(o.Name)
+				case "tagged":
+					v, _ = c.GetTaggedBy(o.Name)
+				}
+			}()
+			return v
+		}
+		owner := map[int64]string{}
+		var shared []string
+		n := 0
+		for _, o := range op.Ops {
+			for _, id := range topIDs(fetch(a, o)) {
+				if id != 0 {
+					owner[id] = o.Op + " " + o.Name
+					n++
+				}
+			}
+		}
+		for _, o := range op.Ops {
+			for _, id := range topIDs(fetch(b, o)) {
+				if w, dup := owner[id]; dup && id != 0 {
+					shared = append(shared, fmt.Sprintf("%s of the second container is the object the first container returned for %s", o.Op+" "+o.Name, w))
+				}
+			}
+		}
+		res.Counts = map[string]int64{"identities_of_first_container": int64(n)}
+		if len(shared) > 0 {
+			if len(shared) > 5 {
+				shared = shared[:5]
+			}
+			res.Err = strings.Join(shared, "; ")
+			return
+		}
 		res.OK = true
 	case "setenv":
 		os.Setenv(op.Name, op.Val)
